@@ -28,7 +28,8 @@ TraceNext ==
   /\ LET e == Trace[l] IN
        IF IsMachineOp(e)
        THEN /\ ws' = MachineLogged(e)          \* resynchronise on the logged state
-            /\ IF MachineExplains(e, ws) THEN TRUE ELSE Reject(e)
+            /\ IF MachineExplains(e, ws) THEN TRUE
+               ELSE PrintT(<<"REJECT", l, e.op, ToJson(MachineNext(e, ws))>>)
        ELSE /\ ws' = ws
             /\ IF Explains(e) THEN TRUE
                ELSE IF KnownDeviation(e) # "" THEN Known(e, KnownDeviation(e))
